@@ -37,6 +37,37 @@ def inline_silent_rules(expr: Expression, rules: Mapping[str, Rule]) -> Expressi
             rule
             and rule.modifier == SILENT
             and rule.name not in ("WHITESPACE", "COMMENT")
+            and not _refers_to(rule.expression, rule.name, rules)
         ):
             return rule.expression
     return expr
+
+
+def _refers_to(expr: Expression, name: str, rules: Mapping[str, Rule]) -> bool:
+    """True if `expr` reaches the rule `name` through plain silent rules only.
+
+    Inlining such a rule never removes the reference: every further pass copies
+    the body once more, and the table grows without bound.
+    """
+    stack = [expr]
+    visited: set[str] = set()
+    while stack:
+        node = stack.pop()
+        if isinstance(node, Identifier):
+            if node.value == name:
+                return True
+            if node.value not in visited:
+                visited.add(node.value)
+                target = rules.get(node.value)
+                # Only rules that are inlined themselves can carry the cycle.
+                if (
+                    target is not None
+                    and target.modifier == SILENT
+                    and target.name not in ("WHITESPACE", "COMMENT")
+                ):
+                    stack.append(target.expression)
+        elif isinstance(node, BuiltInRule):
+            continue
+        else:
+            stack.extend(node.children())
+    return False
